@@ -10,9 +10,12 @@ import pipeline as P
 from gen import ids as G
 
 ID = "C17"
+HAVE_INPUT = os.path.exists(os.path.join(vlib.LEAN, "IsoVerif", "Props", "C17Input.lean"))
 HAVE_PRINTER = os.path.exists(os.path.join(vlib.LEAN, "IsoVerif", "Props", "C17Printer.lean"))
-PROPS = ["IsoVerif/Props/C17.lean"] + (["IsoVerif/Props/C17Printer.lean"] if HAVE_PRINTER else [])
-TARGETS = ["IsoVerif.Props.C17"] + (["IsoVerif.Props.C17Printer"] if HAVE_PRINTER else [])
+PROPS = ["IsoVerif/Props/C17.lean"] + (["IsoVerif/Props/C17Printer.lean"] if HAVE_PRINTER else []) + \
+    (["IsoVerif/Props/C17Input.lean"] if HAVE_INPUT else [])
+TARGETS = ["IsoVerif.Props.C17"] + (["IsoVerif.Props.C17Printer"] if HAVE_PRINTER else []) + \
+    (["IsoVerif.Props.C17Input"] if HAVE_INPUT else [])
 GEN_DEPS = ["Constants"]
 LEVEL = "proof"
 RULE = ("in-process call histories against the real classes of src/id_policy.py (stub genedb; references with exon_id on "
@@ -22,11 +25,23 @@ RULE = ("in-process call histories against the real classes of src/id_policy.py 
         "reference id lists, event histories and get_id histories; pipeline runs on synthetic multi-chromosome data "
         "(second run uses the first run's extended_annotation.gtf as reference) whose printed exon_id sequence is "
         "replayed through the model; a case is non-trivial when the model returns a non-error, non-empty value and "
-        "model == implementation; distinct by (op, input)")
+        "model == implementation; distinct by (op, input); the input check: check_gtf_duplicates on the GTF text of seeded record "
+        "lists (exon-only and complete files, ids on several sequences, repeated records, ids that look like renamed ones) "
+        "and real gffutils databases of them (check_db_sequences, printed / located transcripts per sequence); pipeline "
+        "scenarios rotate input form (GTF, GFF3, .db), threads 1/2/4, --check_canonical, --count_exons, 2-3 generations, "
+        "transcript_models.gtf fed back, a run without --genedb, ambiguous sequence names; the shared-id annotations are "
+        "followed through IsoQuant's own corrected GTF")
 TRUSTED = ["stub genedb: region(seqid, start, featuretype) yields the features of that chromosome and type "
            "(gffutils behaviour assumed, exercised for real in the pipeline runs)",
-           "Gen/Constants.lean tn_* are the TranscriptNaming constants of src/common.py (re-extracted every run)"]
-ASSUMPTIONS = ["ids are ASCII (Python int() also accepts non-ASCII digits / spaces; the model does not)",
+           "Gen/Constants.lean tn_* are the TranscriptNaming constants of src/common.py (re-extracted every run)",
+           "gffutils.create_db (options of src/gtf2db.py): one gene / transcript feature per id, the record when there is one, "
+           "else inferred with the sequence of one of its lines (checked on every generated database); relations as written "
+           "by _populate_from_lines"]
+ASSUMPTIONS = ["input check model: parsed fields of well-formed data lines (no blank inside an id, gene records carry no transcript_id); "
+               "a string used as gene_id on one line and as transcript_id on another (one key space in gffutils) and mRNA-typed "
+               "records of a GTF (audit2-C GAP-1) are outside the database model (docs/C17.md F8)",
+               "a user who passes --no_gtf_check has switched the input check off: the shared-id scenarios are not run with it",
+               "ids are ASCII (Python int() also accepts non-ASCII digits / spaces; the model does not)",
                "ids are shorter than CPython's 4300-digit int() limit",
                "CPython int / str(int) / '%d' semantics = Lean Nat.toDigits 10",
                "reading rule: transcript ids are compared with transcript ids, gene ids with gene ids (GTF attributes)",
@@ -176,11 +191,144 @@ def impl_call(op, kw):
             return [st.get_id(c[0], (c[1], c[2]), c[3]) for c in kw["calls"]]
         if op == "dump":
             return impl_dump(kw)
+        if op == "check_gtf":
+            return impl_check_gtf(kw["recs"])
+        if op == "db_of":
+            return impl_db_of(kw["recs"], kw["chrs"])[0]
     except StubUnavailable:
         raise
     except Exception as ex:      # whatever the real code raises is the error value of the call
         return {"error": "error", "exc": type(ex).__name__}
     raise RuntimeError("unknown op " + op)
+
+
+# ------------------------------------------------------------------------------------------------
+# the input check on the real code: check_gtf_duplicates on the GTF text of a record list; the gffutils database of the
+# text (options of src/gtf2db.py, gene / transcript records inferred) and check_db_sequences on it
+
+def impl_check_gtf(recs):
+    _impl()
+    import src.gtf2db as GD
+    d = vlib.scratch_dir("isoverif_c17_in_")
+    try:
+        path = os.path.join(d, "ann.gtf")
+        with open(path, "w") as f:
+            f.write(G.records_text(recs))
+        ok, corrected, _, _ = GD.check_gtf_duplicates(path)
+        out = []
+        for l in corrected.split("\n"):
+            if l.strip():
+                a = l.split("\t")[8]
+                g = re.search(r'gene_id "([^"]*)"', a).group(1)
+                t = re.search(r'transcript_id "([^"]*)"', a)
+                out.append([g, t.group(1) if t else None])
+        return {"ok": bool(ok), "out": out}
+    finally:
+        shutil.rmtree(d, ignore_errors=True)
+
+
+def impl_db_of(recs, chrs):
+    """-> (model-shaped answer of the real database, {gseq, tseq} = the sequences gffutils gave the features, problems)"""
+    _impl()
+    import src.gtf2db as GD
+    d = vlib.scratch_dir("isoverif_c17_db_")
+    try:
+        gtf = os.path.join(d, "ann.gtf")
+        with open(gtf, "w") as f:
+            f.write(G.records_text(recs))
+        dbf = os.path.join(d, "ann.db")
+        G.gtf_to_db(gtf, dbf, complete=False)
+        import gffutils
+        db = gffutils.FeatureDB(dbf)
+        genes = sorted([f.id, f.seqid] for f in db.features_of_type("gene"))
+        trs = sorted([f.id, f.seqid] for f in db.features_of_type(("transcript", "mRNA")))
+        try:
+            # (a tree without the check accepts every database)
+            getattr(GD, "check_db_sequences", lambda _: None)(dbf)
+            accepted = True
+        except SystemExit:
+            accepted = False
+        printed = [[c, sorted(t.id for g in db.region(seqid=c, start=1, featuretype="gene")
+                              for t in db.children(g, featuretype=("transcript", "mRNA")))] for c in chrs]
+        located = [[c, sorted(t.id for t in db.region(seqid=c, start=1, featuretype=("transcript", "mRNA")))] for c in chrs]
+        bad = []
+        for fid, seq in genes:
+            if seq not in {r[0] for r in recs if r[2] == fid}:
+                bad.append("gene feature %s on %s, a sequence none of its lines lies on" % (fid, seq))
+        for fid, seq in trs:
+            if seq not in {r[0] for r in recs if r[1] != "gene" and r[3] == fid}:
+                bad.append("transcript feature %s on %s, a sequence none of its lines lies on" % (fid, seq))
+        rel = [tuple(x) for x in db.execute("SELECT p.id, p.seqid, c.id, c.seqid FROM relations r JOIN features p ON p.id = r.parent "
+                                            "JOIN features c ON c.id = r.child WHERE r.level = 1")]
+        return ({"accepted": accepted, "genes": genes, "transcripts": trs, "printed": printed, "located": located},
+                {"gseq": genes, "tseq": trs}, {"admissible": bad, "relations": rel})
+    finally:
+        shutil.rmtree(d, ignore_errors=True)
+
+
+def canon_db(mo):
+    """model answer with the set-like parts sorted (gffutils / sqlite row order is not part of the model)"""
+    if not isinstance(mo, dict) or "printed" not in mo:
+        return mo
+    return {"accepted": mo["accepted"], "genes": sorted(mo["genes"]), "transcripts": sorted(mo["transcripts"]),
+            "printed": [[c, sorted(l)] for c, l in mo["printed"]], "located": [[c, sorted(l)] for c, l in mo["located"]]}
+
+
+def input_cases(ctx):
+    """check_gtf on random record lists; db_of on those gffutils can build a database of (no repeated gene / transcript record:
+    merge_strategy="error"), the sequences of the inferred features being read off the real database"""
+    rng = ctx.rng
+    cases = []
+    for i in range(400 if QUICK(ctx) else 4000):
+        recs = G.rand_gtf_records(rng)
+        cases.append(("check_gtf", {"track": True, "recs": recs}))
+        if i % 4 == 0:
+            ids = [(r[1] == "gene", r[2] if r[1] == "gene" else r[3]) for r in recs if r[1] != "exon"]
+            if len(ids) != len(set(ids)) or {r[2] for r in recs} & {r[3] for r in recs} or any(r[1] == "mRNA" for r in recs):
+                continue        # (one key space for gene and transcript features in gffutils: not the model's `Db`;
+                #                  an mRNA-typed record of a GTF gets the id mRNA_<n>: audit2-C GAP-1, property C12)
+            try:
+                _, seqs, prob = impl_db_of(recs, G.IN_SEQS)
+            except Exception as ex:       # gffutils refuses the file
+                ctx.count("db_of_not_built:" + type(ex).__name__)
+                continue
+            if prob["admissible"]:
+                ctx.disagree("db_of_admissible", {"recs": recs}, None, prob["admissible"])
+                continue
+            cases.append(("db_of", {"recs": recs, "chrs": G.IN_SEQS, "gseq": seqs["gseq"], "tseq": seqs["tseq"]}))
+    return cases
+
+
+def check_input_case(recs):
+    """the property at the input check of the real code: an annotation that check_gtf_duplicates accepts gives a database
+    in which every level-1 relation joins features of one sequence (what the per-chromosome id allocation and the
+    concatenation of the per-chromosome output blocks rely on); a database check_db_sequences accepts prints, on every
+    sequence, only transcripts located there"""
+    fails = []
+    ok = impl_check_gtf(recs)["ok"]
+    ids = [(r[1] == "gene", r[2] if r[1] == "gene" else r[3]) for r in recs if r[1] != "exon"]
+    if {r[2] for r in recs} & {r[3] for r in recs} or any(r[1] == "mRNA" for r in recs):
+        return fails        # docs/C17.md F8; mRNA-typed GTF records: audit2-C GAP-1 (C12)
+    if len(ids) != len(set(ids)):
+        if ok:
+            fails.append(("input_check_accepts_inconsistent_annotation", "a repeated gene / transcript record is accepted: %s" % recs))
+        return fails
+    try:
+        ans, _, prob = impl_db_of(recs, G.IN_SEQS)
+    except Exception:       # gffutils refuses the file
+        return fails
+    split = [r for r in prob["relations"] if r[1] != r[3]]
+    if ok and split:
+        fails.append(("input_check_accepts_inconsistent_annotation",
+                      "check_gtf_duplicates accepts, but %s (%s) is a child of %s (%s)" % (split[0][2], split[0][3], split[0][0], split[0][1])))
+    if ans["accepted"]:
+        loc = dict((c, set(l)) for c, l in ans["located"])
+        for c, l in ans["printed"]:
+            if not set(l) <= loc[c]:
+                fails.append(("input_check_accepts_inconsistent_annotation",
+                              "check_db_sequences accepts, but %s prints %s, located elsewhere" % (c, sorted(set(l) - loc[c]))))
+                break
+    return fails
 
 
 # ------------------------------------------------------------------------------------------------
@@ -318,6 +466,8 @@ def gen_cases(ctx):
             cases.append(("dump", GP.rand_dump_case(rng)))
         for _ in range(80 if quick else 800):
             cases.append(("dump", GP.rand_dump_case(rng, records=True)))
+    if HAVE_INPUT:
+        cases += input_cases(ctx)
     return cases
 
 
@@ -330,6 +480,10 @@ def nontrivial(op, kw, mo):
         return len(mo) > 0
     if op == "events":
         return len(mo["models"]) > 0
+    if op == "check_gtf":
+        return len(mo["out"]) > 1
+    if op == "db_of":
+        return any(l for _, l in mo["printed"])
     return True
 
 
@@ -344,6 +498,8 @@ def correspondence(ctx):
         if isinstance(mo, dict) and "driver_error" in mo:
             ctx.disagree(op, kw, mo, None)
             continue
+        if op == "db_of":
+            mo = canon_db(mo)
         try:
             io = vlib.canon(impl_call(op, kw))
         except StubUnavailable as ex:
@@ -360,6 +516,10 @@ def correspondence(ctx):
             if op == "events":
                 for ev in kw["events"]:
                     ctx.count("event:" + ev["kind"])
+            if op == "check_gtf":
+                ctx.count("check_gtf:" + ("accepted" if mo["ok"] else "rejected"))
+            if op == "db_of":
+                ctx.count("db_of:" + ("accepted" if mo["accepted"] else "rejected"))
             if op == "exon_history":
                 ctx.count("exon_history_calls", len(kw["calls"]))
                 if any(e.get("type", "exon") != "exon" and e["attr"] for e in kw["genedb"] or []):
@@ -382,13 +542,17 @@ _RUNS = {}
 
 def scenario_seeds(ctx):
     n = 4 if QUICK(ctx) else 30
-    return [TOY_SEED, TOY_SUBSET_SEED, TWO_CHR_GENE_SEED] + [ctx.seed * 7 + i for i in range(n)]
+    return [TOY_SEED, TOY_SUBSET_SEED, TWO_CHR_GENE_SEED, TWO_CHR_GENE_DB_SEED, TWO_CHR_TID_DB_SEED] + \
+        [ctx.seed * 7 + i for i in range(n)]
 
 
 TOY_SEED = -1      # scenario id of the toy data of the repository (real annotation with exon_id, CDS, UTR features)
 TOY_SUBSET_SEED = -2       # the same, run 1 sees every third read only: run 2 (reference = run 1's extended annotation,
 #                            whose CDS / codon / UTR lines carry exon_ids of their own) has many NEW exons to number
-TWO_CHR_GENE_SEED = -3     # one gene_id on two chromosomes, gene / transcript records inferred by gffutils (no --complete_genedb)
+TWO_CHR_GENE_SEED = -3     # one gene_id AND one transcript_id on two chromosomes, gene / transcript records inferred by gffutils
+#                            (no --complete_genedb); GTF input, followed through IsoQuant's own <name>.corrected.gtf
+TWO_CHR_GENE_DB_SEED = -4  # one gene_id on two chromosomes, the annotation given as a gffutils database (options of src/gtf2db.py)
+TWO_CHR_TID_DB_SEED = -5   # gene ids distinct per sequence, one transcript_id on both (the shape of the corrected GTF), as database
 
 
 def run_toy(seed=TOY_SEED):
@@ -432,77 +596,178 @@ def run_toy(seed=TOY_SEED):
         shutil.rmtree(d, ignore_errors=True)
 
 
+PLANS = [
+    # the reference of generation 1 in the form `form`; `gens` generations, each on the extended annotation of the one before
+    # (the last one sees all reads); `last_complete`: the last generation with / without --complete_genedb; `tm_feedback`: one
+    # more run whose reference is the transcript_models.gtf of generation 1; `no_genedb`: one more run without annotation
+    dict(pool=0, threads=1, flags=["--check_canonical"], form="gtf", gens=3, last_complete=True, tm_feedback=False, no_genedb=False),
+    dict(pool=1, threads=4, flags=["--count_exons"], form="db", gens=2, last_complete=True, tm_feedback=True, no_genedb=False),
+    dict(pool=2, threads=2, flags=[], form="gff3", gens=3, last_complete=False, tm_feedback=False, no_genedb=False),
+    dict(pool=0, threads=2, flags=[], form="gtf", gens=2, last_complete=True, tm_feedback=False, no_genedb=True),
+]
+
+
+def scenario_plan(seed):
+    return PLANS[seed % len(PLANS)]
+
+
 def run_scenario(seed, keep=False):
-    """two pipeline runs: (1) visible annotation + reads of a subset of genes; (2) reference = extended annotation of
-    run 1, all reads.  Returns dict with parsed reference / output records per run (cached)."""
+    """pipeline runs of one synthetic scenario, options / input form / number of generations rotated by `scenario_plan`:
+    generation 1 = visible annotation + reads of a subset of genes; every further generation uses the
+    extended_annotation.gtf of the one before as reference and sees more reads (the last one all of them).
+    Returns dict with parsed reference / output records per run (cached)."""
     if seed in (TOY_SEED, TOY_SUBSET_SEED):
         return run_toy(seed)
-    if seed == TWO_CHR_GENE_SEED:
-        return run_two_chr_gene()
+    if seed in SHARED_VARIANTS:
+        return run_two_chr_gene(seed)
     key = (seed, P.REPO)
     if key in _RUNS:
         return _RUNS[key]
-    sc = G.build_scenario(seed, n_chroms=3 if seed % 2 else 2, genes_per_chrom=4)
+    plan = scenario_plan(seed)
+    sc = G.build_scenario(seed, n_chroms=3 if seed % 2 else 2, genes_per_chrom=4, name_pool=G.NAME_POOLS[plan["pool"]])
     d = P.scratch("isoverif_c17_pipe_")
-    res = {"seed": seed, "runs": [], "chroms": sc["chroms"], "error": None}
+    res = {"seed": seed, "runs": [], "chroms": sc["chroms"], "error": None, "plan": plan, "labels": []}
+    home = os.path.join(d, "home")
     try:
-        extra = ["--report_novel_unspliced", "true"] if seed % 3 == 0 else []
-        p1 = G.write_scenario(sc, os.path.join(d, "data1"), read_filter=lambda r: not re.search(r"_[13]_[abc]_", r["name"]))
-        rc, log = P.run_isoquant(os.path.join(d, "out1"), P.std_args(p1, threads=2, extra=extra), home=os.path.join(d, "home"))
-        if rc != 0:
-            res["error"] = "run1 rc=%s: %s" % (rc, log[-800:])
-            return res
-        of1 = P.out_files(os.path.join(d, "out1"))
-        res["runs"].append(collect_run(p1["gtf"], of1))
-        p2 = G.write_scenario(sc, os.path.join(d, "data2"))
-        ref2 = os.path.join(d, "data2", "prev_extended.gtf")
-        shutil.copy(of1["S.extended_annotation.gtf"], ref2)
-        p2["gtf"] = ref2
-        rc, log = P.run_isoquant(os.path.join(d, "out2"), P.std_args(p2, threads=2, extra=extra), home=os.path.join(d, "home"))
-        if rc != 0:
-            res["error"] = "run2 rc=%s: %s" % (rc, log[-800:])
-            return res
-        res["runs"].append(collect_run(ref2, P.out_files(os.path.join(d, "out2"))))
+        extra = (["--report_novel_unspliced", "true"] if seed % 3 == 0 else []) + plan["flags"]
+        # generation g of n sees the reads of the genes with index <= what the filter lets through
+        filters = {2: [r"_[13]_[abc]_", None], 3: [r"_[13]_[abc]_", r"_3_[abc]_", None]}[plan["gens"]]
+
+        def one_run(label, data, ref_gtf, form, complete=True, genedb=True):
+            """ref_gtf: the annotation as GTF text file (what `ref` is parsed from); handed over in the form `form`"""
+            ann = ref_gtf
+            if genedb and form == "db":
+                ann = os.path.join(os.path.dirname(ref_gtf), "ann_%s.db" % label)
+                G.gtf_to_db(ref_gtf, ann, complete=complete)
+            elif genedb and form == "gff3":
+                ann = data["gff3"]
+            args = P.std_args(dict(data, gtf=ann), threads=plan["threads"], genedb=genedb, extra=extra)
+            if not complete:
+                args = [a for a in args if a != "--complete_genedb"]
+            out = os.path.join(d, "out_" + label)
+            rc, log = P.run_isoquant(out, args, home=home)
+            if rc != 0:
+                res["error"] = "%s rc=%s: %s" % (label, rc, log[-800:])
+                return None
+            of = P.out_files(out)
+            res["runs"].append(collect_run(ref_gtf if genedb else None, of))
+            res["labels"].append(label)
+            return of
+
+        prev = None
+        of1 = None
+        for g, flt in enumerate(filters, 1):
+            data = G.write_scenario(sc, os.path.join(d, "data%d" % g),
+                                    read_filter=(lambda r, f=flt: not re.search(f, r["name"])) if flt else None)
+            if prev is None:
+                of = one_run("gen1", data, data["gtf"], plan["form"])
+                of1 = of
+            else:
+                ref = os.path.join(d, "data%d" % g, "prev_extended.gtf")
+                shutil.copy(prev["S.extended_annotation.gtf"], ref)
+                last = g == len(filters)
+                of = one_run("gen%d" % g, data, ref, "db" if plan["form"] == "db" else "gtf",
+                             complete=plan["last_complete"] if last else True)
+            if of is None:
+                return res
+            prev = of
+        if plan["tm_feedback"]:
+            ref = os.path.join(d, "data%d" % len(filters), "prev_models.gtf")
+            shutil.copy(of1["S.transcript_models.gtf"], ref)
+            if one_run("tm_feedback", data, ref, "gtf") is None:
+                return res
+        if plan["no_genedb"]:
+            if one_run("no_genedb", data, None, "gtf", genedb=False) is None:
+                return res
         return res
     finally:
         _RUNS[key] = res
         shutil.rmtree(d, ignore_errors=True)
 
 
-def run_two_chr_gene():
-    """a reference in the style of the UCSC / RefSeq GTFs: no gene / transcript records (gffutils infers them, the run
-    is made without --complete_genedb) and the same gene_id on two chromosomes (PAR genes, alternative haplotypes)"""
-    key = (TWO_CHR_GENE_SEED, P.REPO)
+SHARED_VARIANTS = {
+    # seed: (share the transcript_id as well, form of the annotation handed to --genedb)
+    -3: (True, "gtf"),       # TWO_CHR_GENE_SEED
+    -4: (False, "db"),       # TWO_CHR_GENE_DB_SEED
+    -5: (True, "db"),        # TWO_CHR_TID_DB_SEED
+}
+
+
+def shared_id_annotation(path, share_transcript, rename_second_gene=False):
+    """rewrites the scenario annotation in the style of the UCSC / RefSeq GTFs: no gene / transcript records (gffutils
+    infers them; the run is made without --complete_genedb), gene_id SHARED on two chromosomes (PAR genes, alternative
+    haplotypes) and - `share_transcript` - the same transcript_id TSHARED for the `_a` isoform of the two loci, as these
+    files have it.  `rename_second_gene`: the gene of the second sequence is called SHARED.<seq> (exactly what the
+    <name>.corrected.gtf written by IsoQuant contains)"""
+    lines = []
+    with open(path) as f:
+        for l in f:
+            c = l.rstrip("\n").split("\t")
+            if c[2] in ("gene", "transcript"):
+                continue
+            second = 'gene_id "G1_1"' in c[8]
+            c[8] = c[8].replace('gene_id "G0_1"', 'gene_id "SHARED"').replace(
+                'gene_id "G1_1"', 'gene_id "SHARED%s"' % ("." + c[0] if rename_second_gene and second else ""))
+            if share_transcript:
+                c[8] = c[8].replace('transcript_id "T0_1_a"', 'transcript_id "TSHARED"').replace(
+                    'transcript_id "T1_1_a"', 'transcript_id "TSHARED"')
+            if c[2] == "exon":
+                c[8] += ' exon_id "E%s_%s_%s";' % (c[0], c[3], c[4])
+            lines.append("\t".join(c))
+    with open(path, "w") as f:
+        f.write("\n".join(lines) + "\n")
+
+
+REJECTED = re.compile(r"is used on several sequences|lies on another sequence")
+
+
+def loud_rejection(rc, log):
+    """the run stopped before any output was written and the log names the id that is used on several sequences"""
+    return rc != 0 and bool(REJECTED.search(log)) and ("SHARED" in log)
+
+
+def run_two_chr_gene(seed=None):
+    """one gene_id (and, variant, one transcript_id) on two chromosomes in a reference without gene / transcript records.
+    DESIGN section 6, C03 rule (d): such an annotation is malformed and must be rejected by the input check - whatever form it
+    is given in (GTF, gffutils database).  A rejected GTF comes with <name>.corrected.gtf, which IsoQuant tells the user to
+    check / use: the scenario follows that advice (at most 3 times) and the run on the corrected file is held to the
+    whole property.  Outcomes: `rejected_loudly` (every step rejected and named the id) or the parsed outputs of the
+    first accepted run together with the annotation that run was given."""
+    seed = TWO_CHR_GENE_SEED if seed is None else seed
+    key = (seed, P.REPO)
     if key in _RUNS:
         return _RUNS[key]
+    share_t, form = SHARED_VARIANTS[seed]
     sc = G.build_scenario(11, n_chroms=2, genes_per_chrom=3, exon_id_attrs=False, isoquant_style_ref=False)
     d = P.scratch("isoverif_c17_g2_")
-    res = {"seed": TWO_CHR_GENE_SEED, "runs": [], "chroms": sc["chroms"], "error": None}
+    res = {"seed": seed, "runs": [], "chroms": sc["chroms"], "error": None, "steps": []}
     try:
         p = G.write_scenario(sc, os.path.join(d, "data"), cds=False)
-        lines = []
-        with open(p["gtf"]) as f:
-            for l in f:
-                c = l.rstrip("\n").split("\t")
-                if c[2] in ("gene", "transcript"):
-                    continue
-                c[8] = c[8].replace('gene_id "G0_1"', 'gene_id "SHARED"').replace('gene_id "G1_1"', 'gene_id "SHARED"')
-                if c[2] == "exon":
-                    c[8] += ' exon_id "E%s_%s_%s";' % (c[0], c[3], c[4])
-                lines.append("\t".join(c))
-        with open(p["gtf"], "w") as f:
-            f.write("\n".join(lines) + "\n")
-        args = [a for a in P.std_args(p, threads=2) if a != "--complete_genedb"]
-        rc, log = P.run_isoquant(os.path.join(d, "out"), args, home=os.path.join(d, "home"))
-        if rc != 0 and "is used on several sequences" in log and "SHARED" in log:
-            # since fix 5e64455 the input check rejects the annotation loudly and names the gene id (DESIGN §6, C03 rule (d)):
-            # nothing is printed on a wrong chromosome; the scenario is kept so that a silent acceptance shows up again
-            res["rejected_loudly"] = True
-            return res
-        if rc != 0:
-            res["error"] = "run rc=%s: %s" % (rc, log[-800:])
-            return res
-        res["runs"].append(collect_run(p["gtf"], P.out_files(os.path.join(d, "out"))))
+        shared_id_annotation(p["gtf"], share_t, rename_second_gene=(share_t and form == "db"))
+        gtf = p["gtf"]
+        for step in range(4):
+            ann = gtf
+            if form == "db":
+                ann = os.path.join(d, "data", "ann%d.db" % step)
+                G.gtf_to_db(gtf, ann, complete=False)
+            args = [a for a in P.std_args(dict(p, gtf=ann), threads=2) if a != "--complete_genedb"]
+            out = os.path.join(d, "out%d" % step)
+            rc, log = P.run_isoquant(out, args, home=os.path.join(d, "home"))
+            if rc == 0:
+                res["steps"].append("accepted")
+                res["runs"].append(collect_run(gtf, P.out_files(out)))
+                return res
+            if not loud_rejection(rc, log):
+                res["error"] = "run rc=%s: %s" % (rc, log[-800:])
+                return res
+            res["steps"].append("rejected")
+            corrected = [os.path.join(out, fn) for fn in sorted(os.listdir(out)) if ".corrected." in fn] if os.path.isdir(out) else []
+            if not corrected or step == 3:
+                # (a database input has no corrected version; the message asks for the GTF)
+                res["rejected_loudly"] = True
+                return res
+            gtf = os.path.join(d, "data", "ann.corrected%d.gtf" % step)
+            shutil.copy(corrected[0], gtf)
         return res
     finally:
         _RUNS[key] = res
@@ -510,7 +775,7 @@ def run_two_chr_gene():
 
 
 def collect_run(ref_gtf, of):
-    return {"ref": P.parse_gtf(ref_gtf),
+    return {"ref": P.parse_gtf(ref_gtf) if ref_gtf else [],
             "tm": P.parse_gtf(of["S.transcript_models.gtf"]) if "S.transcript_models.gtf" in of else [],
             "ext": P.parse_gtf(of["S.extended_annotation.gtf"]) if "S.extended_annotation.gtf" in of else []}
 
@@ -699,27 +964,48 @@ def check_cross_chr_inproc(ca, cb, feats_a, feats_b, calls_a, calls_b):
     return check_exon_history(ga + gb, rk, ri)
 
 
+def transcript_blocks(recs):
+    """the transcript lines of an output GTF, each with the exon lines that follow it (GFFPrinter writes a transcript
+    line and then its exon / CDS / ... lines), so that two transcript lines with one id stay two transcripts"""
+    blocks = []
+    for r in recs:
+        if r["feature"] == "transcript":
+            blocks.append((r, []))
+        elif r["feature"] == "exon" and blocks and blocks[-1][0]["attrs"].get("transcript_id") == r["attrs"].get("transcript_id") \
+                and blocks[-1][0]["chr"] == r["chr"]:
+            blocks[-1][1].append((r["start"], r["end"]))
+        elif r["feature"] == "exon":
+            blocks.append((None, [(r["start"], r["end"])]))      # an exon line outside its transcript's block
+    return blocks
+
+
 def check_outputs(run):
-    """the property on the GTFs of one pipeline run -> list of (kind, detail)"""
+    """the property on the GTFs of one pipeline run -> list of (kind, detail).  The reference is indexed by
+    (sequence, id): nothing here assumes that the reference ids are globally unique (DESIGN section 6, C03 rule (d): an id used
+    on several sequences must have been rejected, so a run that got this far is held to the statement as it stands)"""
     fails = []
     ref_t, ref_g = {}, {}
     ref_ex = collections.defaultdict(list)
+    tid_chrs, gene_chrs = collections.defaultdict(set), collections.defaultdict(set)
     for r in run["ref"]:
+        a = r["attrs"]
         if r["feature"] in ("transcript", "mRNA"):
-            ref_t[r["attrs"].get("transcript_id")] = (r["chr"], r["strand"])
+            ref_t[(r["chr"], a.get("transcript_id"))] = r["strand"]
         elif r["feature"] == "gene":
-            ref_g[r["attrs"].get("gene_id")] = r["chr"]
+            ref_g.setdefault(a.get("gene_id"), r["chr"])
         elif r["feature"] == "exon":
-            ref_ex[r["attrs"].get("transcript_id")].append((r["start"], r["end"]))
+            ref_ex[(r["chr"], a.get("transcript_id"))].append((r["start"], r["end"]))
+        if r["feature"] != "gene" and "transcript_id" in a:
+            tid_chrs[a["transcript_id"]].add(r["chr"])
+        if "gene_id" in a:
+            gene_chrs[a["gene_id"]].add(r["chr"])
     # a reference without gene / transcript records (gffutils infers them)
-    gene_chrs = collections.defaultdict(set)
     for r in run["ref"]:
         if r["feature"] == "exon":
-            ref_t.setdefault(r["attrs"].get("transcript_id"), (r["chr"], r["strand"]))
-            gene_chrs[r["attrs"].get("gene_id")].add(r["chr"])
+            ref_t.setdefault((r["chr"], r["attrs"].get("transcript_id")), r["strand"])
     for g, cs in gene_chrs.items():
         ref_g.setdefault(g, sorted(cs)[0])
-    t_gene = {r["attrs"].get("transcript_id"): r["attrs"].get("gene_id") for r in run["ref"] if r["feature"] == "exon"}
+    t_gene = {(r["chr"], r["attrs"].get("transcript_id")): r["attrs"].get("gene_id") for r in run["ref"] if r["feature"] == "exon"}
     rk, ri, rall = collections.defaultdict(set), collections.defaultdict(set), {}
     for r in run["ref"]:
         if "exon_id" in r["attrs"]:
@@ -738,29 +1024,41 @@ def check_outputs(run):
         if dup:
             fails.append(("gene_id_duplicate", "%s: gene_id on several gene lines: %s" % (name, dup[:3])))
         # an output transcript that carries a reference id must be that reference transcript
-        out_ex = collections.defaultdict(list)
-        t_line = {}
-        for r in recs:
-            if r["feature"] == "exon":
-                out_ex[r["attrs"]["transcript_id"]].append((r["start"], r["end"]))
-            elif r["feature"] == "transcript":
-                t_line[r["attrs"]["transcript_id"]] = r
-        for t, r in t_line.items():
-            if t in ref_t and (ref_t[t] != (r["chr"], r["strand"]) or sorted(ref_ex[t]) != sorted(out_ex[t])):
-                if ref_t[t][0] != r["chr"] and len(gene_chrs.get(t_gene.get(t), ())) > 1:
-                    fails.append(("reference_gene_on_two_chromosomes",
-                                  "%s: reference transcript %s of %s is printed on %s (its gene_id %s occurs on %s)"
-                                  % (name, t, ref_t[t][0], r["chr"], t_gene.get(t), sorted(gene_chrs[t_gene[t]]))))
-                    break
-                fails.append(("novel_id_collides_with_reference",
-                              "%s: transcript %s differs from the reference transcript of that id" % (name, t)))
+        blocks = transcript_blocks(recs)
+        if any(b[0] is None for b in blocks):
+            fails.append(("transcript_id_duplicate", "%s: exon lines outside the block of their transcript line" % name))
+        for r, out_ex in blocks:
+            if r is None:
+                continue
+            t = r["attrs"]["transcript_id"]
+            if t not in tid_chrs:
+                continue
+            here = (r["chr"], t)
+            if here in ref_t and ref_t[here] == r["strand"] and sorted(ref_ex[here]) == sorted(out_ex):
+                continue
+            home = sorted(tid_chrs[t])
+            g = t_gene.get((home[0], t))
+            if len(home) > 1:
+                fails.append(("reference_transcript_on_two_chromosomes",
+                              "%s: transcript line %s on %s (%d exons) is none of the reference transcripts of that id "
+                              "(the id occurs on %s with %s exons)"
+                              % (name, t, r["chr"], len(out_ex), home, [len(ref_ex[(c, t)]) for c in home])))
                 break
+            if here not in ref_t and len(gene_chrs.get(g, ())) > 1:
+                fails.append(("reference_gene_on_two_chromosomes",
+                              "%s: reference transcript %s of %s is printed on %s (its gene_id %s occurs on %s)"
+                              % (name, t, home[0], r["chr"], g, sorted(gene_chrs[g]))))
+                break
+            fails.append(("novel_id_collides_with_reference",
+                          "%s: transcript %s differs from the reference transcript of that id" % (name, t)))
+            break
         # genes: a reference gene id must stay on its chromosome; an IsoQuant-made gene is one locus
         g_tr = collections.defaultdict(list)
-        for t, r in t_line.items():
-            g_tr[r["attrs"]["gene_id"]].append((r["chr"], r["start"], r["end"]))
+        for r, _ in blocks:
+            if r is not None:
+                g_tr[r["attrs"]["gene_id"]].append((r["chr"], r["start"], r["end"]))
         for g, trs in sorted(g_tr.items()):
-            if g in ref_g and any(c != ref_g[g] and c not in gene_chrs.get(g, ()) for c, _, _ in trs):
+            if g in ref_g and any(c not in gene_chrs.get(g, ()) for c, _, _ in trs):
                 fails.append(("novel_id_collides_with_reference", "%s: gene %s of %s has transcripts on %s"
                               % (name, g, ref_g[g], sorted({c for c, _, _ in trs}))))
                 break
@@ -842,6 +1140,8 @@ def oracle_case(case):
         return check_cross_chr_inproc(case["a"], case["b"], case["feats_a"], case["feats_b"], case["calls_a"], case["calls_b"])
     if k == "dump":
         return check_dump_case(case["case"])
+    if k == "input":
+        return check_input_case(case["recs"])
     if k == "pipeline":
         res = run_scenario(case["seed"])
         # a run that aborts is a broken tie (recorded by pipeline_correspondence), not by itself an id failure;
@@ -892,6 +1192,8 @@ def oracle(ctx, disagreements, broken):
                  "real_db": bool(inp.get("real_db"))})
         elif d["op"] == "dump":
             run({"level": "dump", "case": inp})
+        elif d["op"] in ("check_gtf", "db_of", "db_of_admissible"):
+            run({"level": "input", "recs": inp["recs"]})
         elif d["op"].startswith("pipeline_") and "seed" in inp:
             run({"level": "pipeline", "seed": inp["seed"]})
         if len(ctx.failures) > 20:
@@ -940,6 +1242,10 @@ def oracle(ctx, disagreements, broken):
             run({"level": "dump", "case": GP.rand_dump_case(rng, records=i % 3 == 2)})
             if len(ctx.failures) > 20:
                 break
+    for _ in range(150 if quick else 1500):
+        run({"level": "input", "recs": G.rand_gtf_records(rng)})
+        if len(ctx.failures) > 20:
+            break
     # 3. the real pipeline
     for seed in scenario_seeds(ctx):
         run({"level": "pipeline", "seed": seed})
